@@ -1,5 +1,6 @@
 #!/bin/sh
-# usage: tools/mutants.sh [-t quick|thorough] [-j lanes] [-c "C01 C05 ..."] <seed dir>...
+# usage: tools/mutants.sh [-t quick|thorough] [-j lanes] [-c "C01 C05 ..."] [-p plan] <seed dir>...
+#   -p plan: a file with lines "<seed> <check> <check> ..." naming the checks to run for that seed (default: -c / all)
 # Sensitivity run: for every seeded change (a directory with patch.diff) build the harness against a
 # patched scratch copy of /repo and run the quick tier of every check (or those named with -c) on
 # it. Nothing in /repo or /verif/evidence is touched: each lane has its own worktree of /repo, copy
@@ -7,7 +8,8 @@
 # Output: one line per seed on stdout  "<seed> caught_by=<ids> | missed"  and a JSON summary at
 # /verif/work/mutants/<seed>.json
 TIER=quick; LANES=3; CHECKS="C01 C02 C03 C04 C05 C06 C07 C08 C09 C10 C11 C12 C13 C14 C15 C16 C17 C18 C19 C20"
-while getopts t:j:c: o; do case $o in t) TIER=$OPTARG;; j) LANES=$OPTARG;; c) CHECKS=$OPTARG;; *) exit 2;; esac; done
+PLAN=""
+while getopts t:j:c:p: o; do case $o in t) TIER=$OPTARG;; j) LANES=$OPTARG;; c) CHECKS=$OPTARG;; p) PLAN=$OPTARG;; *) exit 2;; esac; done
 shift $((OPTIND-1))
 [ $# -gt 0 ] || { echo "no seed directories given" >&2; exit 2; }
 export CARGO_NET_OFFLINE=true
@@ -29,7 +31,9 @@ lane() {
         if ! git -C "$L/repo" apply "$S/patch.diff" 2>/dev/null; then echo "$name patch-does-not-apply"; continue; fi
         if ! (cd "$L/harness" && cargo build --release --offline >"$L/build.log" 2>&1); then echo "$name harness-build-failed"; tail -5 "$L/build.log"; continue; fi
         caught=""; js=""
-        for id in $CHECKS; do
+        RUN="$CHECKS"
+        if [ -n "$PLAN" ]; then P=$(grep "^$name " "$PLAN" | cut -d' ' -f2-); [ -n "$P" ] && RUN="$P"; fi
+        for id in $RUN; do
             rm -rf "$L/evidence" "$L/replays"
             t0=$(date +%s.%N)
             out=$(VERIF_ROOT="$L" "$L/target/release/verif" "$id" "$TIER" 2>"$L/err.log"); rc=$?
